@@ -454,9 +454,12 @@ def sem_prepare(traces):
 
 def sem_describe(t, pos, tag):
     ev = t[pos] if pos < len(t) else {}
+    obl = tag
     if tag == "C17.sem.len.stress":       # terminal form of the same obligation (a stress history is its single Stress line)
-        tag = "C17.sem.len"
-    return tag, "sub=sem tag=%s op=%s mode=%s cap=%s" % (tag, ev.get("op"), t[0].get("mode"), t[0].get("cap")), \
+        tag = "C17.sem.len.above" if ev.get("maxlen", 0) > t[0]["cap"] else "C17.sem.len.negative"
+    if tag.startswith("C17.sem.len"):
+        obl = "C17.sem.len"
+    return obl, "sub=sem tag=%s op=%s mode=%s cap=%s" % (tag, ev.get("op"), t[0].get("mode"), t[0].get("cap")), \
         "semaphore history violates %s at event %d: %s" % (tag, pos, json.dumps(ev)[:300])
 
 
@@ -484,7 +487,7 @@ def check_sem(ctx, drv):
     def corrupt_sem(t):
         e = next(e for e in t if e["op"] == "Obs")
         e["len"] = t[0]["cap"] + 1
-    selftest(ctx, "Trace_LimitsSem", traces, lambda t: any(e["op"] == "Obs" for e in t), corrupt_sem, "C17.sem.len")
+    selftest(ctx, "Trace_LimitsSem", traces, lambda t: any(e["op"] == "Obs" for e in t), corrupt_sem, "C17.sem.len.above")
 
 
 # ----------------------------------------------------------------------------------------------- registry
